@@ -31,7 +31,7 @@ theorem listGood_parse {g : GCtx} {ip : Bool} {d : Defs} : ∀ {ps : List Ty}, L
     ∃ pres, ParsesTo d (tyExprs ip ps) pres ∧ postTys g.tps pres = normTys g.tps ip ps
   | [], _, _ => ⟨[], trivial, rfl⟩
   | p :: ps, h, henv => by
-    obtain ⟨pre, h1, h2⟩ := (h p (by simp)).2.2 d (henv.mono (by intro x hx; simp [tysAdds, hx]))
+    obtain ⟨pre, h1, h2, _⟩ := (h p (by simp)).2.2 d (henv.mono (by intro x hx; simp [tysAdds, hx]))
     obtain ⟨pres, h3, h4⟩ := listGood_parse (ps := ps) (fun q hq => h q (by simp [hq]))
       (henv.mono (by intro x hx; simp [tysAdds, hx]))
     refine ⟨pre :: pres, ⟨⟨h1, tyExpr_shape ip p⟩, h3⟩, ?_⟩
